@@ -102,6 +102,9 @@ def digest_type_params(compiler, tp):
         return {}
     if not PY3_12:
        compiler._syntax_error(tp, "`:tp` requires Python 3.12 or later")
+    for x in tp[0]:
+        compiler._nonconst(
+            x[1] if is_unpack("iterable", x) or is_unpack("mapping", x) else x[0])
 
     return dict(type_params = [
         asty.TypeVarTuple(x[1], name = mangle(x[1]))
@@ -640,7 +643,7 @@ def compile_assign(
 @pattern_macro(((3, 12), "deftype"), [maybe(type_params), SYM, FORM])
 def compile_deftype(compiler, expr, root, tp, name, value):
     return asty.TypeAlias(expr,
-       name = asty.Name(name, id = mangle(name), ctx = ast.Store()),
+       name = asty.Name(name, id = mangle(compiler._nonconst(name)), ctx = ast.Store()),
        value = compile_lazy_expr(compiler, value),
         **digest_type_params(compiler, tp))
 
@@ -1457,7 +1460,8 @@ def compile_pattern(compiler, pattern):
     elif is_unpack("iterable", value):
         if mangle(value[1]) == "_":
             return asty.MatchStar(value, name=None)
-        return compiler.scope.assign(asty.MatchStar(value, name=mangle(value[1])))
+        return compiler.scope.assign(
+            asty.MatchStar(value, name=mangle(compiler._nonconst(value[1]))))
 
     elif isinstance(value, Dict):
         kvs, rest = value
@@ -1470,7 +1474,7 @@ def compile_pattern(compiler, pattern):
                 value,
                 keys=[compiler.compile(key).expr for key in keys],
                 patterns=[compile_pattern(compiler, v) for v in values],
-                rest=mangle(rest) if rest else None,
+                rest=mangle(compiler._nonconst(rest)) if rest else None,
             )
         )
     elif isinstance(value, Expression):
@@ -1487,7 +1491,11 @@ def compile_pattern(compiler, pattern):
                 if type(head) is Expression
                 else head).expr,
             patterns=[compile_pattern(compiler, v) for v in args],
-            kwd_attrs=[mangle(kwd.name) for kwd in keywords],
+            kwd_attrs=[
+                compiler._syntax_error(kwd, "can't use a constant as an attribute name in a class pattern")
+                if mangle(kwd.name) in ("None", "True", "False")
+                else mangle(kwd.name)
+                for kwd in keywords],
             kwd_patterns=[compile_pattern(compiler, value) for value in values],
         )
     elif isinstance(value, Keyword):
